@@ -1,15 +1,1159 @@
-//! Engine `hist` — not built yet (stub).
+//! Engine `hist` (C04, C03): multi-session histories through the public API (`Database`, `Session`) against the
+//! logical MVCC model `Model/Db.lean`.  Case syntax: see `cfg/C04.py` / `Model/Db.lean` header.
 use super::{Case, Engine, Tier};
 use crate::rng::Rng;
+use axmosdb::runtime::QueryResult;
+use axmosdb::tcp::session::Session;
+use axmosdb::{DBConfig, DataType, Database};
+use std::collections::BTreeMap;
+use std::sync::atomic::{AtomicU64, Ordering};
 
 pub struct HistEngine;
 
-impl Engine for HistEngine {
-    fn gen_cases(&self, _rng: &mut Rng, _tier: Tier) -> Vec<Case> {
-        Vec::new()
+// ------------------------------------------------------------------------------------------------ case syntax
+
+#[derive(Clone, Debug, PartialEq)]
+pub enum Val {
+    Int(i64),
+    Null,
+    Text(String),
+}
+
+#[derive(Clone, Debug)]
+pub struct Col {
+    pub name: String,
+    pub ty: String, // big | int | text
+    pub not_null: bool,
+    pub unique: bool,
+}
+
+#[derive(Clone, Debug)]
+pub struct Table {
+    pub name: String,
+    pub cols: Vec<Col>,
+}
+
+#[derive(Clone, Debug)]
+pub struct Pred {
+    pub col: String,
+    pub op: String, // eq ne lt le gt ge
+    pub val: Val,
+}
+
+#[derive(Clone, Debug)]
+pub enum Stmt {
+    Sel { table: String, pred: Option<Pred> },
+    Ins { table: String, rows: Vec<Vec<Val>> },
+    Upd { table: String, col: String, add: bool, val: Val, pred: Option<Pred> },
+    Del { table: String, pred: Option<Pred> },
+}
+
+#[derive(Clone, Debug)]
+pub enum Op {
+    Begin(String),
+    Commit(String),
+    Rollback(String),
+    Drop(String),
+    Exec(String, Stmt),   // session statement
+    Auto(Stmt),           // `db <stmt>`: Database::execute
+    Batch(Vec<Stmt>),     // `db batch s1 & s2 & …`: Database::execute_batch
+}
+
+#[derive(Clone, Debug)]
+pub struct Setup {
+    pub tables: Vec<Table>,
+    pub rows: Vec<(String, Vec<Val>)>,
+    pub fresh: bool,
+}
+
+fn parse_val(s: &str) -> Option<Val> {
+    if s == "null" {
+        return Some(Val::Null);
     }
-    fn exec(&mut self, _line: &str) -> String {
-        "unimplemented".into()
+    if s.len() >= 2 && s.starts_with('\'') && s.ends_with('\'') {
+        let body = &s[1..s.len() - 1];
+        if body.chars().all(|c| c.is_ascii_lowercase()) {
+            return Some(Val::Text(body.to_string()));
+        }
+        return None;
+    }
+    // canonical decimal only (no leading '+', no leading zeros) so that both sides agree on what is malformed
+    let n: i64 = s.parse().ok()?;
+    if n.to_string() != s || n.abs() > 1_000_000_000 {
+        return None;
+    }
+    Some(Val::Int(n))
+}
+
+fn ident(s: &str) -> bool {
+    !s.is_empty() && s.chars().all(|c| c.is_ascii_lowercase() || c.is_ascii_digit()) && s.chars().next().unwrap().is_ascii_lowercase()
+}
+
+fn parse_table(spec: &str) -> Option<Table> {
+    // tab=t(k:big*,v:int!)
+    let (name, rest) = spec.split_once('(')?;
+    let rest = rest.strip_suffix(')')?;
+    if !ident(name) {
+        return None;
+    }
+    let mut cols = Vec::new();
+    for c in rest.split(',') {
+        let (cn, ty) = c.split_once(':')?;
+        let mut ty = ty.to_string();
+        let mut not_null = false;
+        let mut unique = false;
+        loop {
+            if let Some(t) = ty.strip_suffix('!') {
+                not_null = true;
+                ty = t.to_string();
+            } else if let Some(t) = ty.strip_suffix('*') {
+                unique = true;
+                ty = t.to_string();
+            } else {
+                break;
+            }
+        }
+        if !ident(cn) || !matches!(ty.as_str(), "big" | "int" | "text") {
+            return None;
+        }
+        cols.push(Col { name: cn.to_string(), ty, not_null, unique });
+    }
+    if cols.is_empty() {
+        return None;
+    }
+    Some(Table { name: name.to_string(), cols })
+}
+
+fn parse_setup(s: &str) -> Option<Setup> {
+    let mut st = Setup { tables: vec![], rows: vec![], fresh: false };
+    for w in s.split_whitespace() {
+        if w == "fresh" {
+            st.fresh = true;
+        } else if let Some(t) = w.strip_prefix("tab=") {
+            st.tables.push(parse_table(t)?);
+        } else if let Some(r) = w.strip_prefix("row=") {
+            // row=t:1,10
+            let (t, vs) = r.split_once(':')?;
+            let vals: Option<Vec<Val>> = vs.split(',').map(parse_val).collect();
+            st.rows.push((t.to_string(), vals?));
+        } else {
+            return None;
+        }
+    }
+    Some(st)
+}
+
+fn parse_pred(ws: &[&str]) -> Option<Option<Pred>> {
+    match ws {
+        [] => Some(None),
+        ["where", col, op, val] => {
+            if !ident(col) || !matches!(*op, "eq" | "ne" | "lt" | "le" | "gt" | "ge") {
+                return None;
+            }
+            Some(Some(Pred { col: col.to_string(), op: op.to_string(), val: parse_val(val)? }))
+        }
+        _ => None,
+    }
+}
+
+fn parse_stmt(ws: &[&str]) -> Option<Stmt> {
+    match ws {
+        ["sel", t, rest @ ..] if ident(t) => Some(Stmt::Sel { table: t.to_string(), pred: parse_pred(rest)? }),
+        ["del", t, rest @ ..] if ident(t) => Some(Stmt::Del { table: t.to_string(), pred: parse_pred(rest)? }),
+        ["upd", t, col, how, val, rest @ ..] if ident(t) && ident(col) && (*how == "set" || *how == "add") => Some(Stmt::Upd {
+            table: t.to_string(),
+            col: col.to_string(),
+            add: *how == "add",
+            val: parse_val(val)?,
+            pred: parse_pred(rest)?,
+        }),
+        ["ins", t, rest @ ..] if ident(t) && !rest.is_empty() => {
+            let mut rows = Vec::new();
+            for r in rest.split(|w| *w == ",") {
+                if r.is_empty() {
+                    return None;
+                }
+                let vals: Option<Vec<Val>> = r.iter().map(|v| parse_val(v)).collect();
+                rows.push(vals?);
+            }
+            Some(Stmt::Ins { table: t.to_string(), rows })
+        }
+        _ => None,
+    }
+}
+
+fn sess_name(s: &str) -> bool {
+    s.len() >= 2 && s.starts_with('s') && s[1..].chars().all(|c| c.is_ascii_digit())
+}
+
+fn parse_op(s: &str) -> Option<Op> {
+    let ws: Vec<&str> = s.split_whitespace().collect();
+    match ws.as_slice() {
+        ["db", "batch", rest @ ..] => {
+            let mut stmts = Vec::new();
+            for part in rest.split(|w| *w == "&") {
+                stmts.push(parse_stmt(part)?);
+            }
+            Some(Op::Batch(stmts))
+        }
+        ["db", rest @ ..] => Some(Op::Auto(parse_stmt(rest)?)),
+        [s, "begin"] if sess_name(s) => Some(Op::Begin(s.to_string())),
+        [s, "commit"] if sess_name(s) => Some(Op::Commit(s.to_string())),
+        [s, "rollback"] if sess_name(s) => Some(Op::Rollback(s.to_string())),
+        [s, "drop"] if sess_name(s) => Some(Op::Drop(s.to_string())),
+        [s, rest @ ..] if sess_name(s) => Some(Op::Exec(s.to_string(), parse_stmt(rest)?)),
+        _ => None,
+    }
+}
+
+pub fn parse_case(line: &str) -> Option<(Setup, Vec<Op>)> {
+    let body = line.trim().strip_prefix("hist ")?;
+    let (setup, ops) = body.split_once('|')?;
+    let setup = parse_setup(setup)?;
+    let mut out = Vec::new();
+    let ops = ops.trim();
+    if !ops.is_empty() {
+        for o in ops.split(" ; ") {
+            out.push(parse_op(o)?);
+        }
+    }
+    Some((setup, out))
+}
+
+// ------------------------------------------------------------------------------------------------ SQL text
+
+fn sql_val(v: &Val) -> String {
+    match v {
+        Val::Int(n) => n.to_string(),
+        Val::Null => "NULL".into(),
+        Val::Text(s) => format!("'{}'", s),
+    }
+}
+
+fn sql_pred(p: &Option<Pred>) -> String {
+    match p {
+        None => String::new(),
+        Some(p) => {
+            let op = match p.op.as_str() {
+                "eq" => "=",
+                "ne" => "<>",
+                "lt" => "<",
+                "le" => "<=",
+                "gt" => ">",
+                _ => ">=",
+            };
+            format!(" WHERE {} {} {}", p.col, op, sql_val(&p.val))
+        }
+    }
+}
+
+pub fn sql_of(s: &Stmt) -> String {
+    match s {
+        Stmt::Sel { table, pred } => format!("SELECT * FROM {}{}", table, sql_pred(pred)),
+        Stmt::Del { table, pred } => format!("DELETE FROM {}{}", table, sql_pred(pred)),
+        Stmt::Upd { table, col, add, val, pred } => {
+            if *add {
+                format!("UPDATE {} SET {} = {} + {}{}", table, col, col, sql_val(val), sql_pred(pred))
+            } else {
+                format!("UPDATE {} SET {} = {}{}", table, col, sql_val(val), sql_pred(pred))
+            }
+        }
+        Stmt::Ins { table, rows } => {
+            let rs: Vec<String> =
+                rows.iter().map(|r| format!("({})", r.iter().map(sql_val).collect::<Vec<_>>().join(", "))).collect();
+            format!("INSERT INTO {} VALUES {}", table, rs.join(", "))
+        }
+    }
+}
+
+fn sql_create(t: &Table) -> String {
+    let mut cols: Vec<String> = Vec::new();
+    let mut uniq: Vec<String> = Vec::new();
+    for c in &t.cols {
+        let ty = match c.ty.as_str() {
+            "big" => "BIGINT",
+            "int" => "INT",
+            _ => "TEXT",
+        };
+        cols.push(format!("{} {}{}", c.name, ty, if c.not_null { " NOT NULL" } else { "" }));
+        if c.unique {
+            uniq.push(format!("UNIQUE({})", c.name));
+        }
+    }
+    cols.extend(uniq);
+    format!("CREATE TABLE {} ({})", t.name, cols.join(", "))
+}
+
+// ------------------------------------------------------------------------------------------------ execution
+
+/// Error classes.  `Session::execute` / `Database::execute` hand every error through the task runner as a *string*
+/// (`TaskError::TaskFailed(e.to_string())`), so the class has to be read off the `Display` prefix that the error enums
+/// (`QueryError`, `RuntimeError`, `QueryPreparationError`) put in front of the message.
+fn err_class(msg: &str) -> &'static str {
+    let m = msg.to_ascii_lowercase();
+    if m.contains("conflict") {
+        "conflict"
+    } else if m.contains("constraint validation error") || m.contains("unique") || m.contains("not null") || m.contains("null constraint") {
+        "constraint"
+    } else if m.contains("not found") || m.contains("does not exist") || m.contains("notfound") {
+        "notfound"
+    } else if m.contains("type error") || m.contains("cast") || m.contains("type mismatch") || m.contains("datatype") {
+        "type"
+    } else {
+        "other"
+    }
+}
+
+fn show_dt(d: &DataType) -> String {
+    match d {
+        DataType::Null => "null".into(),
+        DataType::Int(v) => v.value().to_string(),
+        DataType::BigInt(v) => v.value().to_string(),
+        DataType::UInt(v) => v.value().to_string(),
+        DataType::BigUInt(v) => v.value().to_string(),
+        DataType::Blob(b) => format!("'{}'", String::from_utf8_lossy(b.data().unwrap_or(&[]))),
+        other => format!("?{:?}", other),
+    }
+}
+
+fn show_result(r: Result<QueryResult, String>, is_read: bool, diag: &mut Vec<String>) -> String {
+    match r {
+        Ok(QueryResult::Rows(rows)) => {
+            let mut out: Vec<String> =
+                rows.iterrows().map(|r| r.iter().map(show_dt).collect::<Vec<_>>().join(",")).collect();
+            out.sort();
+            format!("[{}]", out.join(";"))
+        }
+        Ok(QueryResult::RowsAffected(n)) => {
+            if is_read { format!("?affected{}", n) } else { format!("ok{}", n) }
+        }
+        Ok(QueryResult::Ddl(_)) => "ddl".into(),
+        Err(e) => {
+            diag.push(e.chars().filter(|c| *c != '\n').take(100).collect());
+            err_class(&e).to_string()
+        }
+    }
+}
+
+static COUNTER: AtomicU64 = AtomicU64::new(0);
+
+pub fn run_case(line: &str) -> String {
+    let Some((setup, ops)) = parse_case(line) else { return "bad-op".into() };
+    let dir = std::env::temp_dir().join(format!("axv-hist-{}-{}", std::process::id(), COUNTER.fetch_add(1, Ordering::SeqCst)));
+    let _ = std::fs::remove_dir_all(&dir);
+    std::fs::create_dir_all(&dir).unwrap();
+    let out = run_in(&dir, &setup, &ops);
+    let _ = std::fs::remove_dir_all(&dir);
+    out
+}
+
+fn run_in(dir: &std::path::Path, setup: &Setup, ops: &[Op]) -> String {
+    let path = dir.join("db.axm");
+    let db = match Database::create(&path, DBConfig::default()) {
+        Ok(d) => d,
+        Err(e) => return format!("create-failed ## {}", e),
+    };
+    let mut diag: Vec<String> = Vec::new();
+    for t in &setup.tables {
+        if let Err(e) = db.execute(&sql_create(t)) {
+            return format!("bad-setup ## {}", e);
+        }
+    }
+    if !setup.fresh {
+        // warm-up: make sure some transaction with id > 0 has committed
+        let _ = db.execute("CREATE TABLE warmupzz (k BIGINT)");
+    }
+    for (t, vals) in &setup.rows {
+        let s = Stmt::Ins { table: t.clone(), rows: vec![vals.clone()] };
+        if let Err(e) = db.execute(&sql_of(&s)) {
+            return format!("bad-setup ## {}", e);
+        }
+    }
+    let mut sessions: BTreeMap<String, Session> = BTreeMap::new();
+    let mut outs: Vec<String> = Vec::new();
+    for op in ops {
+        let o = match op {
+            Op::Begin(s) => {
+                // an open session of that name is dropped first (= rollback)
+                sessions.remove(s);
+                match db.session() {
+                    Ok(x) => {
+                        sessions.insert(s.clone(), x);
+                        "ok".to_string()
+                    }
+                    Err(e) => err_class(&e.to_string()).to_string(),
+                }
+            }
+            Op::Commit(s) => match sessions.get_mut(s) {
+                None => "nosession".into(),
+                Some(x) => {
+                    let r = x.commit_transaction();
+                    let o = match r {
+                        Ok(()) => "ok".to_string(),
+                        Err(e) => {
+                            diag.push(e.to_string().chars().take(100).collect());
+                            err_class(&e.to_string()).to_string()
+                        }
+                    };
+                    sessions.remove(s);
+                    o
+                }
+            },
+            Op::Rollback(s) => match sessions.get_mut(s) {
+                None => "nosession".into(),
+                Some(x) => {
+                    let r = x.abort_transaction();
+                    let o = match r {
+                        Ok(()) => "ok".to_string(),
+                        Err(e) => err_class(&e.to_string()).to_string(),
+                    };
+                    sessions.remove(s);
+                    o
+                }
+            },
+            Op::Drop(s) => match sessions.remove(s) {
+                None => "nosession".into(),
+                Some(x) => {
+                    drop(x);
+                    "ok".into()
+                }
+            },
+            Op::Exec(s, st) => match sessions.get_mut(s) {
+                None => "nosession".into(),
+                Some(x) => {
+                    let r = x.execute(&sql_of(st)).map_err(|e| e.to_string());
+                    show_result(r, matches!(st, Stmt::Sel { .. }), &mut diag)
+                }
+            },
+            Op::Auto(st) => {
+                let r = db.execute(&sql_of(st)).map_err(|e| e.to_string());
+                show_result(r, matches!(st, Stmt::Sel { .. }), &mut diag)
+            }
+            Op::Batch(sts) => {
+                let sqls: Vec<String> = sts.iter().map(sql_of).collect();
+                let refs: Vec<&str> = sqls.iter().map(|s| s.as_str()).collect();
+                match db.execute_batch(&refs) {
+                    Ok(rs) => {
+                        let parts: Vec<String> = rs
+                            .into_iter()
+                            .zip(sts.iter())
+                            .map(|(r, st)| show_result(Ok(r), matches!(st, Stmt::Sel { .. }), &mut diag))
+                            .collect();
+                        format!("batch({})", parts.join(" "))
+                    }
+                    Err(e) => {
+                        diag.push(e.to_string().chars().take(100).collect());
+                        format!("batch-{}", err_class(&e.to_string()))
+                    }
+                }
+            }
+        };
+        outs.push(o);
+    }
+    drop(sessions);
+    // final committed state of every table, read by a fresh autocommit transaction
+    let mut fin: Vec<String> = Vec::new();
+    for t in &setup.tables {
+        let r = db.execute(&format!("SELECT * FROM {}", t.name)).map_err(|e| e.to_string());
+        fin.push(format!("{}={}", t.name, show_result(r, true, &mut diag)));
+    }
+    drop(db);
+    let mut line = format!("{} | {}", outs.join(" "), fin.join(" "));
+    if !diag.is_empty() {
+        line.push_str(" ## ");
+        line.push_str(&diag.join(" // "));
+    }
+    line
+}
+
+// ------------------------------------------------------------------------------------------------ generation
+//
+// A *program* is the op list of one session without the session prefix: `begin`, statements, `commit|rollback|drop`.
+// Key discipline that keeps a case in the clean region (no known-finding feature):
+//   * initial rows have keys 1..n (value 10*k); session i inserts keys 10*i+j only;
+//   * a session writes (del/upd) only rows it "owns": its own inserted keys and the initial keys dealt to it;
+//   * no UPDATE at all, no statement failing after its first row inside a session, no reinsertion of a deleted
+//     unique key.
+// The finding families lift exactly one of these restrictions each.
+
+const T_PLAIN: &str = "tab=t(k:big,v:int)";
+const T_CONS: &str = "tab=u(k:big*,v:int!)";
+
+#[derive(Clone, Copy, PartialEq)]
+enum Family {
+    Clean,
+    Update,          // updates, no two open transactions writing the same row     (updateKeepsInserterXmin)
+    ConcurrentWrite, // two open transactions write the same row                   (writeSetNeverRecorded, deleteMarkSingleSlot)
+    PartialFail,     // statement failing after its first row inside a session     (stmtNotAtomicInSession)
+    Reinsert,        // deleted unique key inserted again                          (region: index entry replaced)
+}
+
+struct Ctx {
+    table: &'static str, // t or u
+    n_init: i64,
+    owned: Vec<Vec<i64>>, // per session: initial keys it may write
+}
+
+fn setup_line(table: &str, n_init: i64, fresh: bool) -> String {
+    let mut s = String::new();
+    s.push_str(if table == "t" { T_PLAIN } else { T_CONS });
+    for k in 1..=n_init {
+        s.push_str(&format!(" row={}:{},{}", table, k, 10 * k));
+    }
+    if fresh {
+        s.push_str(" fresh");
+    }
+    s
+}
+
+fn gen_read(rng: &mut Rng, cx: &Ctx) -> String {
+    let t = cx.table;
+    match rng.below(6) {
+        0 | 1 | 2 => format!("sel {}", t),
+        3 => format!("sel {} where k eq {}", t, rng.range(1, cx.n_init.max(1))),
+        4 => format!("sel {} where v {} {}", t, rng.pick(&["ge", "lt", "ne", "gt", "le"]), 10 * rng.range(1, 3)),
+        _ => format!("sel {} where k {} {}", t, rng.pick(&["lt", "ge", "ne"]), rng.range(1, 12)),
+    }
+}
+
+/// one statement of session `si` (1-based); `ins_ctr` numbers its inserted keys
+fn gen_stmt(rng: &mut Rng, cx: &Ctx, fam: Family, si: usize, ins_ctr: &mut i64, my_keys: &mut Vec<i64>) -> String {
+    let t = cx.table;
+    let w = rng.below(10);
+    if w < 4 {
+        return gen_read(rng, cx);
+    }
+    if w < 7 || my_keys.is_empty() {
+        // insert (sometimes multi-row)
+        let nrows = if rng.chance(1, 4) { 2 } else { 1 };
+        let mut parts = Vec::new();
+        for _ in 0..nrows {
+            let k = 10 * si as i64 + *ins_ctr;
+            *ins_ctr += 1;
+            my_keys.push(k);
+            parts.push(format!("{} {}", k, 100 * si as i64 + rng.range(0, 9)));
+        }
+        return format!("ins {} {}", t, parts.join(" , "));
+    }
+    let k = *rng.pick(my_keys);
+    let upd_ok = matches!(fam, Family::Update | Family::ConcurrentWrite);
+    if upd_ok && rng.chance(3, 5) {
+        if rng.chance(1, 2) {
+            format!("upd {} v add {} where k eq {}", t, rng.range(1, 5), k)
+        } else {
+            format!("upd {} v set {} where k eq {}", t, 1000 + rng.range(0, 99), k)
+        }
+    } else {
+        if !(fam == Family::Reinsert) {
+            my_keys.retain(|x| *x != k);
+        }
+        format!("del {} where k eq {}", t, k)
+    }
+}
+
+fn gen_end(rng: &mut Rng) -> &'static str {
+    match rng.below(10) {
+        0..=5 => "commit",
+        6..=8 => "rollback",
+        _ => "drop",
+    }
+}
+
+/// a program of `n` statements for session `si`
+fn gen_prog(rng: &mut Rng, cx: &Ctx, fam: Family, si: usize, n: usize) -> Vec<String> {
+    let mut ops = vec!["begin".to_string()];
+    let mut ins_ctr = 1;
+    let mut my_keys = cx.owned[si - 1].clone();
+    for _ in 0..n {
+        ops.push(gen_stmt(rng, cx, fam, si, &mut ins_ctr, &mut my_keys));
+    }
+    ops.push(gen_end(rng).to_string());
+    ops
+}
+
+/// all interleavings of the programs (each keeps its own order), as op lists with session prefixes
+fn all_interleavings(progs: &[Vec<String>]) -> Vec<Vec<String>> {
+    fn rec(progs: &[Vec<String>], pos: &mut Vec<usize>, cur: &mut Vec<String>, out: &mut Vec<Vec<String>>) {
+        let mut done = true;
+        for i in 0..progs.len() {
+            if pos[i] < progs[i].len() {
+                done = false;
+                cur.push(format!("s{} {}", i + 1, progs[i][pos[i]]));
+                pos[i] += 1;
+                rec(progs, pos, cur, out);
+                pos[i] -= 1;
+                cur.pop();
+            }
+        }
+        if done {
+            out.push(cur.clone());
+        }
+    }
+    let mut out = Vec::new();
+    rec(progs, &mut vec![0; progs.len()], &mut Vec::new(), &mut out);
+    out
+}
+
+fn random_interleaving(rng: &mut Rng, progs: &[Vec<String>]) -> Vec<String> {
+    let mut pos = vec![0usize; progs.len()];
+    let mut out = Vec::new();
+    loop {
+        let live: Vec<usize> = (0..progs.len()).filter(|i| pos[*i] < progs[*i].len()).collect();
+        if live.is_empty() {
+            return out;
+        }
+        // weight by remaining length so that every interleaving has the same probability
+        let total: usize = live.iter().map(|i| progs[*i].len() - pos[*i]).sum();
+        let mut x = rng.below(total as u64) as usize;
+        let mut pick = live[0];
+        for i in &live {
+            let r = progs[*i].len() - pos[*i];
+            if x < r {
+                pick = *i;
+                break;
+            }
+            x -= r;
+        }
+        out.push(format!("s{} {}", pick + 1, progs[pick][pos[pick]]));
+        pos[pick] += 1;
+    }
+}
+
+/// deals the initial keys 1..n to the sessions (a key may stay unowned)
+fn deal_keys(rng: &mut Rng, n_init: i64, nsess: usize, shared: bool) -> Vec<Vec<i64>> {
+    let mut owned = vec![Vec::new(); nsess];
+    for k in 1..=n_init {
+        if shared {
+            // every session may write every initial row
+            for o in owned.iter_mut() {
+                o.push(k);
+            }
+        } else {
+            let who = rng.below(nsess as u64 + 1) as usize;
+            if who < nsess {
+                owned[who].push(k);
+            }
+        }
+    }
+    owned
+}
+
+// ---- tagging (syntactic analysis of the op list)
+
+struct Interval {
+    begin: usize,
+    end: usize,
+    writes: Vec<(String, Option<i64>, bool)>, // (table, key or wildcard, is_update)
+    wrote: bool,
+}
+
+fn stmt_touch(st: &Stmt) -> Option<(String, Option<i64>, bool)> {
+    let key = |p: &Option<Pred>| match p {
+        Some(Pred { col, op, val: Val::Int(n) }) if col == "k" && op == "eq" => Some(*n),
+        _ => None,
+    };
+    match st {
+        Stmt::Del { table, pred } => Some((table.clone(), key(pred), false)),
+        Stmt::Upd { table, pred, .. } => Some((table.clone(), key(pred), true)),
+        _ => None,
+    }
+}
+
+pub fn analyse(line: &str) -> Vec<String> {
+    let mut tags: Vec<String> = Vec::new();
+    let Some((setup, ops)) = parse_case(line) else { return vec!["malformed".into()] };
+    let mut add = |t: &str| {
+        if !tags.iter().any(|x| x == t) {
+            tags.push(t.to_string());
+        }
+    };
+    if setup.fresh {
+        add("fresh_db_no_commit_yet");
+    }
+    let mut open: BTreeMap<String, usize> = BTreeMap::new(); // session -> interval index
+    let mut ivs: Vec<Interval> = Vec::new();
+    let mut reads: Vec<(usize, usize)> = Vec::new(); // (interval, position)
+    let mut ends_of_writers: Vec<(usize, usize)> = Vec::new(); // (interval, position) of commit/abort of a writer
+    let (mut n_ins, mut n_del, mut n_upd) = (0, 0, 0);
+    let mut sessions_seen: Vec<String> = Vec::new();
+    for (pos, op) in ops.iter().enumerate() {
+        let mut note_stmt = |st: &Stmt, add: &mut dyn FnMut(&str)| match st {
+            Stmt::Sel { pred, .. } => {
+                add("sel");
+                if let Some(p) = pred {
+                    add("sel_pred");
+                    if p.col == "k" && p.op == "eq" {
+                        add("sel_key_eq");
+                    }
+                }
+            }
+            Stmt::Ins { rows, .. } => {
+                n_ins += 1;
+                add("ins");
+                if rows.len() > 1 {
+                    add("multi_row_insert");
+                }
+            }
+            Stmt::Upd { add: a, .. } => {
+                n_upd += 1;
+                add("update");
+                add(if *a { "upd_add" } else { "upd_set" });
+            }
+            Stmt::Del { .. } => {
+                n_del += 1;
+                add("del");
+            }
+        };
+        match op {
+            Op::Begin(s) => {
+                if !sessions_seen.contains(s) {
+                    sessions_seen.push(s.clone());
+                }
+                if let Some(i) = open.remove(s) {
+                    ivs[i].end = pos;
+                    if ivs[i].wrote {
+                        ends_of_writers.push((i, pos));
+                    }
+                }
+                ivs.push(Interval { begin: pos, end: usize::MAX, writes: vec![], wrote: false });
+                open.insert(s.clone(), ivs.len() - 1);
+            }
+            Op::Commit(s) | Op::Rollback(s) | Op::Drop(s) => {
+                match op {
+                    Op::Commit(_) => add("commit"),
+                    Op::Rollback(_) => add("rollback"),
+                    _ => add("session_drop"),
+                }
+                if let Some(i) = open.remove(s) {
+                    ivs[i].end = pos;
+                    if ivs[i].wrote {
+                        ends_of_writers.push((i, pos));
+                    }
+                }
+            }
+            Op::Exec(s, st) => {
+                note_stmt(st, &mut add);
+                if let Some(&i) = open.get(s) {
+                    if matches!(st, Stmt::Sel { .. }) {
+                        reads.push((i, pos));
+                    } else {
+                        ivs[i].wrote = true;
+                        if let Some(t) = stmt_touch(st) {
+                            ivs[i].writes.push(t);
+                        }
+                    }
+                }
+            }
+            Op::Auto(st) => {
+                add("autocommit");
+                note_stmt(st, &mut add);
+                if !matches!(st, Stmt::Sel { .. }) {
+                    ivs.push(Interval { begin: pos, end: pos, writes: stmt_touch(st).into_iter().collect(), wrote: true });
+                    ends_of_writers.push((ivs.len() - 1, pos));
+                }
+            }
+            Op::Batch(sts) => {
+                add("batch");
+                let mut iv = Interval { begin: pos, end: pos, writes: vec![], wrote: false };
+                for st in sts {
+                    note_stmt(st, &mut add);
+                    if !matches!(st, Stmt::Sel { .. }) {
+                        iv.wrote = true;
+                        if let Some(t) = stmt_touch(st) {
+                            iv.writes.push(t);
+                        }
+                    }
+                }
+                if iv.wrote {
+                    ivs.push(iv);
+                    ends_of_writers.push((ivs.len() - 1, pos));
+                }
+            }
+        }
+    }
+    add(&format!("sess{}", sessions_seen.len().min(4)));
+    if n_upd == 0 && n_del == 0 && n_ins > 0 {
+        add("insert_only");
+    }
+    if n_upd == 0 && n_ins == 0 && n_del > 0 {
+        add("delete_only");
+    }
+    // non-trivial: a writer commits or aborts between two reads of another open transaction
+    let nt = reads.iter().any(|&(i, p1)| {
+        reads.iter().any(|&(j, p2)| i == j && p1 < p2 && ends_of_writers.iter().any(|&(w, pe)| w != i && p1 < pe && pe < p2))
+    });
+    if nt {
+        add("nt");
+    }
+    // two transactions open at the same time writing the same row (same key or a wildcard)
+    for a in 0..ivs.len() {
+        for b in a + 1..ivs.len() {
+            let (x, y) = (&ivs[a], &ivs[b]);
+            if x.begin <= y.end && y.begin <= x.end {
+                for (t1, k1, u1) in &x.writes {
+                    for (t2, k2, u2) in &y.writes {
+                        if t1 == t2 && (k1.is_none() || k2.is_none() || k1 == k2) {
+                            add("concurrent_write_same_row");
+                            if *u1 || *u2 {
+                                add("concurrent_update_same_row");
+                            }
+                            if !*u1 || !*u2 {
+                                add("concurrent_delete_same_row");
+                            }
+                        }
+                    }
+                }
+            }
+        }
+    }
+    tags
+}
+
+fn finish(line: String, fam: Family, extra: &[&str]) -> Case {
+    let mut tags = analyse(&line);
+    for e in extra {
+        if !tags.iter().any(|t| t == e) {
+            tags.push(e.to_string());
+        }
+    }
+    // the known-finding feature a case carries (at most one by construction; `kf2` would flag a generator bug)
+    let mut kf: Vec<&str> = Vec::new();
+    if tags.iter().any(|t| t == "concurrent_write_same_row") {
+        kf.push("kf:concurrent_write_same_row");
+    } else if tags.iter().any(|t| t == "update") {
+        kf.push("kf:update");
+    }
+    if tags.iter().any(|t| t == "failed_stmt_partial") {
+        kf.push("kf:failed_stmt_partial");
+    }
+    if tags.iter().any(|t| t == "reinsert_deleted_unique_key") {
+        kf.push("kf:reinsert_deleted_unique_key");
+    }
+    let _ = fam;
+    match kf.len() {
+        0 => tags.push("clean".into()),
+        1 => tags.push(kf[0].into()),
+        _ => {
+            tags.push(kf[0].into());
+            tags.push("kf2".into());
+        }
+    }
+    Case { line, tags }
+}
+
+fn case_of(setup: &str, ops: &[String], fam: Family, extra: &[&str]) -> Case {
+    finish(format!("hist {} | {}", setup, ops.join(" ; ")), fam, extra)
+}
+
+fn pick_family(rng: &mut Rng) -> Family {
+    match rng.below(100) {
+        0..=74 => Family::Clean,
+        75..=89 => Family::Update,
+        _ => Family::ConcurrentWrite,
+    }
+}
+
+/// C04 family: program tuples and their interleavings
+fn gen_interleaved(rng: &mut Rng, nsess: usize, nstmts: usize, limit: Option<usize>, out: &mut Vec<Case>) {
+    let fam = pick_family(rng);
+    // UPDATE statements only on the table without a unique index: on `u` every UPDATE of `v` fails with a spurious
+    // type error *after* the row was updated (index maintenance mixes value and column indices), see cfg/C03.py
+    let table = if fam == Family::Clean && rng.chance(1, 3) { "u" } else { "t" };
+    let n_init = rng.range(1, 3);
+    let owned = deal_keys(rng, n_init, nsess, fam == Family::ConcurrentWrite);
+    let cx = Ctx { table, n_init, owned };
+    let fresh = fam == Family::Clean && table == "t" && n_init == 0;
+    let progs: Vec<Vec<String>> = (1..=nsess)
+        .map(|si| {
+            let n = if nstmts == 0 { rng.range(1, 3) as usize } else { nstmts };
+            gen_prog(rng, &cx, fam, si, n)
+        })
+        .collect();
+    let setup = setup_line(table, n_init, fresh);
+    let total: usize = progs.iter().map(|p| p.len()).sum();
+    let exhaustive_small = match limit {
+        None => true,
+        Some(l) => {
+            // number of interleavings of two programs: C(a+b, a); enumerate only when small
+            progs.len() == 2 && binom(total, progs[0].len()) <= l
+        }
+    };
+    if exhaustive_small {
+        for il in all_interleavings(&progs) {
+            out.push(case_of(&setup, &il, fam, &["interleave_exhaustive"]));
+        }
+    } else {
+        let l = limit.unwrap();
+        let mut seen = std::collections::BTreeSet::new();
+        let mut tries = 0;
+        while seen.len() < l && tries < 10 * l {
+            tries += 1;
+            let il = random_interleaving(rng, &progs);
+            if seen.insert(il.join(";")) {
+                out.push(case_of(&setup, &il, fam, &["interleave_sampled"]));
+            }
+        }
+    }
+}
+
+fn binom(n: usize, k: usize) -> usize {
+    let mut r: usize = 1;
+    for i in 0..k.min(n - k) {
+        r = r * (n - i) / (i + 1);
+    }
+    r
+}
+
+/// snapshots taken on a database where no transaction with id > 0 has committed yet
+fn gen_fresh(rng: &mut Rng, out: &mut Vec<Case>) {
+    let setup = format!("{} fresh", T_PLAIN);
+    let w = match rng.below(3) {
+        0 => "db ins t 1 10".to_string(),
+        1 => "s2 begin ; s2 ins t 1 10 ; s2 commit".to_string(),
+        _ => "db batch ins t 1 10 & ins t 2 20".to_string(),
+    };
+    let ops = format!("s1 begin ; s1 sel t ; {} ; s1 sel t ; s1 {} ; db sel t", w, gen_end(rng));
+    out.push(finish(format!("hist {} | {}", setup, ops), Family::Clean, &[]));
+}
+
+/// an older transaction stays open (with uncommitted writes) while younger ones begin, write and commit; then a third
+/// one begins and reads: the uncommitted work of the old one, whose id is below the last committed id, must stay
+/// invisible (this is what the snapshot's active set is for), also after it commits or rolls back
+fn gen_old_active(rng: &mut Rng, out: &mut Vec<Case>) {
+    let n_init = rng.range(2, 3);
+    let setup = setup_line("t", n_init, false);
+    let k_old = rng.range(1, n_init);
+    let old_write = match rng.below(3) {
+        0 => format!("s1 del t where k eq {}", k_old),
+        1 => "s1 ins t 11 110".to_string(),
+        _ => format!("s1 ins t 11 110 ; s1 del t where k eq {}", k_old),
+    };
+    let young = match rng.below(3) {
+        0 => "s2 begin ; s2 ins t 21 210 ; s2 commit".to_string(),
+        1 => "db ins t 21 210".to_string(),
+        _ => "s2 begin ; s2 ins t 21 210 ; s2 commit ; db ins t 22 220".to_string(),
+    };
+    let end_old = gen_end(rng);
+    let ops = format!(
+        "s1 begin ; {} ; {} ; s3 begin ; s3 sel t ; s1 sel t ; s1 {} ; s3 sel t ; s4 begin ; s4 sel t ; s4 commit ; s3 commit",
+        old_write, young, end_old
+    );
+    out.push(finish(format!("hist {} | {}", setup, ops), Family::Clean, &["old_active_young_committed"]));
+}
+
+/// two open transactions delete (or update) the same row; every combination of outcomes
+fn gen_concurrent_same_row(rng: &mut Rng, out: &mut Vec<Case>) {
+    let setup = setup_line("t", 2, false);
+    let w = |rng: &mut Rng, s: &str| -> String {
+        if rng.chance(2, 3) {
+            format!("{} del t where k eq 1", s)
+        } else {
+            format!("{} upd t v set {} where k eq 1", s, rng.range(50, 59))
+        }
+    };
+    let w1 = w(rng, "s1");
+    let w2 = w(rng, "s2");
+    let e1 = gen_end(rng);
+    let e2 = gen_end(rng);
+    let ops = if rng.chance(1, 2) {
+        format!("s1 begin ; s2 begin ; {} ; {} ; s1 {} ; s2 sel t ; s2 {} ; db sel t", w1, w2, e1, e2)
+    } else {
+        format!("s1 begin ; s2 begin ; {} ; {} ; s2 {} ; s1 sel t ; s1 {} ; db sel t", w1, w2, e2, e1)
+    };
+    out.push(finish(format!("hist {} | {}", setup, ops), Family::ConcurrentWrite, &[]));
+}
+
+/// C03 family: rollbacks, drops, failing statements at every position, failing batches, observed by later transactions
+fn gen_c03(rng: &mut Rng, out: &mut Vec<Case>) {
+    let n_init = rng.range(1, 3);
+    let setup = setup_line("u", n_init, false);
+    // failing statements (all fail on their FIRST row or at bind time → no partial effect)
+    let fails_first: Vec<String> = vec![
+        format!("ins u {} 99", rng.range(1, n_init)),            // duplicate key
+        "ins u 77 null".into(),                                   // NOT NULL
+        "ins u 77 'abc'".into(),                                  // type error
+        "ins zz 1 1".into(),                                      // unknown table
+        "sel zz".into(),
+        "del zz".into(),
+        "ins u 77".into(),                                        // arity
+        "sel u where q eq 1".into(),                              // unknown column
+        format!("ins u {} 5 , 78 6", rng.range(1, n_init)),      // multi-row failing on its first row
+    ];
+    // failing after the first row: partial effects inside a session (known finding), atomic under autocommit / batch
+    let fails_late: Vec<String> = vec![
+        format!("ins u 71 1 , 72 2 , {} 3", rng.range(1, n_init)),
+        "ins u 71 1 , 72 null".into(),
+        "ins u 71 1 , 72 'abc'".into(),
+        "ins u 71 1 , 71 2".into(),
+    ];
+    let ok_stmts = |rng: &mut Rng, ctr: &mut i64| -> String {
+        match rng.below(5) {
+            0 | 1 => {
+                *ctr += 1;
+                format!("ins u {} {}", 10 + *ctr, 100 + *ctr)
+            }
+            2 => {
+                *ctr += 2;
+                format!("ins u {} {} , {} {}", 10 + *ctr - 1, 100 + *ctr, 10 + *ctr, 101 + *ctr)
+            }
+            3 => format!("del u where k eq {}", rng.range(1, n_init)),
+            _ => "sel u".into(),
+        }
+    };
+    let shape = rng.below(10);
+    let mut ctr = 0i64;
+    match shape {
+        0..=3 => {
+            // session with a failing statement at position `fp` of `n`, then commit / rollback / drop, observer before and after
+            let n = rng.range(2, 4) as usize;
+            let fp = rng.below(n as u64) as usize;
+            let late = rng.chance(1, 4);
+            let mut ops: Vec<String> = vec!["s2 begin".into(), "s2 sel u".into(), "s1 begin".into()];
+            for i in 0..n {
+                if i == fp {
+                    let f = if late { rng.pick(&fails_late).clone() } else { rng.pick(&fails_first).clone() };
+                    ops.push(format!("s1 {}", f));
+                } else {
+                    ops.push(format!("s1 {}", ok_stmts(rng, &mut ctr)));
+                }
+            }
+            ops.push("s1 sel u".into());
+            ops.push(format!("s1 {}", gen_end(rng)));
+            ops.push("s2 sel u".into());
+            ops.push("s2 commit".into());
+            ops.push("db sel u".into());
+            let mut extra = vec!["c03", "failed_stmt"];
+            if late {
+                extra.push("failed_stmt_partial");
+            }
+            out.push(case_of(&setup, &ops, Family::Clean, &extra));
+        }
+        4 | 5 => {
+            // failing autocommit statement / failing batch at every position
+            let n = rng.range(2, 4) as usize;
+            let fp = rng.below(n as u64) as usize;
+            let mut parts: Vec<String> = Vec::new();
+            for i in 0..n {
+                if i == fp {
+                    let f = if rng.chance(1, 2) { rng.pick(&fails_late).clone() } else { rng.pick(&fails_first).clone() };
+                    parts.push(f);
+                } else {
+                    parts.push(ok_stmts(rng, &mut ctr));
+                }
+            }
+            let mut ops: Vec<String> = vec!["s2 begin".into(), "s2 sel u".into()];
+            let mut extra = vec!["c03"];
+            if shape == 4 {
+                ops.push(format!("db batch {}", parts.join(" & ")));
+                extra.push("failed_batch");
+            } else {
+                for p in &parts {
+                    ops.push(format!("db {}", p));
+                }
+                extra.push("failed_auto");
+            }
+            ops.push("db sel u".into());
+            ops.push("s2 sel u".into());
+            ops.push("s2 commit".into());
+            out.push(case_of(&setup, &ops, Family::Clean, &extra));
+        }
+        6 | 7 => {
+            // rollback / drop of inserts and deletes, then the same rows are written again by a later transaction
+            let k = rng.range(1, n_init);
+            let end = if rng.chance(1, 2) { "rollback" } else { "drop" };
+            let ops: Vec<String> = vec![
+                "s1 begin".into(),
+                format!("s1 del u where k eq {}", k),
+                "s1 ins u 31 310".into(),
+                "s1 sel u".into(),
+                format!("s1 {}", end),
+                "db sel u".into(),
+                format!("db sel u where k eq {}", k),
+                "s2 begin".into(),
+                format!("s2 del u where k eq {}", k),
+                "s2 ins u 32 320".into(),
+                "s2 sel u".into(),
+                format!("s2 {}", gen_end(rng)),
+                "db sel u".into(),
+                format!("db del u where k eq {}", k),
+                "db sel u".into(),
+            ];
+            out.push(case_of(&setup, &ops, Family::Clean, &["c03", "delete_after_rolled_back_delete"]));
+        }
+        8 => {
+            // rollback of an UPDATE (known finding: pinned by test_session_rollback_updates)
+            let k = rng.range(1, n_init);
+            let end = if rng.chance(1, 2) { "rollback" } else { "drop" };
+            let ops: Vec<String> = vec![
+                "s1 begin".into(),
+                format!("s1 upd t v {} {} where k eq {}", if rng.chance(1, 2) { "set" } else { "add" }, rng.range(1, 9), k),
+                "s1 sel t".into(),
+                format!("s1 {}", end),
+                "db sel t".into(),
+            ];
+            out.push(case_of(&setup_line("t", n_init, false), &ops, Family::Update, &["c03", "rollback_update"]));
+        }
+        _ => {
+            // delete + reinsert of the same unique key, rolled back (region finding: the index entry is replaced)
+            let k = rng.range(1, n_init);
+            let ops: Vec<String> = vec![
+                "s1 begin".into(),
+                format!("s1 del u where k eq {}", k),
+                format!("s1 ins u {} 555", k),
+                "s1 sel u".into(),
+                format!("s1 {}", if rng.chance(2, 3) { "rollback" } else { "commit" }),
+                "db sel u".into(),
+                format!("db sel u where k eq {}", k),
+            ];
+            out.push(case_of(&setup, &ops, Family::Reinsert, &["c03", "reinsert_deleted_unique_key"]));
+        }
+    }
+}
+
+impl Engine for HistEngine {
+    fn gen_cases(&self, rng: &mut Rng, tier: Tier) -> Vec<Case> {
+        let mut out = Vec::new();
+        let quick = tier == Tier::Quick;
+        // (1) program pairs, all interleavings when there are at most 20, else 20 sampled ones
+        for _ in 0..(if quick { 40 } else { 150 }) {
+            let n = rng.range(1, 2) as usize;
+            gen_interleaved(rng, 2, n, Some(20), &mut out);
+        }
+        // (2) thorough: triples of (begin, statement, end) programs, all 1680 interleavings
+        if !quick {
+            for _ in 0..20 {
+                gen_interleaved(rng, 3, 1, None, &mut out);
+            }
+        }
+        // (3) random histories of 3–4 sessions with 1–3 statements each
+        for _ in 0..(if quick { 300 } else { 3000 }) {
+            let nsess = rng.range(3, 4) as usize;
+            gen_interleaved(rng, nsess, 0, Some(1), &mut out);
+        }
+        // (3b) old open transaction below the last committed id; concurrent writers of one row
+        for _ in 0..(if quick { 120 } else { 1200 }) {
+            gen_old_active(rng, &mut out);
+        }
+        for _ in 0..(if quick { 40 } else { 400 }) {
+            gen_concurrent_same_row(rng, &mut out);
+        }
+        // (4) database birth
+        for _ in 0..(if quick { 12 } else { 60 }) {
+            gen_fresh(rng, &mut out);
+        }
+        // (5) C03: rollback / drop / failing statements / failing batches
+        for _ in 0..(if quick { 400 } else { 4000 }) {
+            gen_c03(rng, &mut out);
+        }
+        out
+    }
+    fn exec(&mut self, line: &str) -> String {
+        run_case(line)
+    }
+    /// one case creates a database (O_DIRECT files, fsync): generous time-out so that an I/O stall of the machine
+    /// (seen once: all 8 workers stalled > 20 s at the same moment while other builds were running) is not taken for a hang
+    fn timeout_ms(&self) -> u64 {
+        120_000
     }
 }
 
